@@ -33,7 +33,7 @@ for m in muts:
         detected, outs = [], []
         noisy = []
         for p in m.get("silent", []):
-            env = dict(os.environ, VERIF_DIR=d)
+            env = dict(os.environ, VERIF_OUT=d)
             os.makedirs(os.path.join(d, "checker"), exist_ok=True)
             shutil.copy(os.path.join(root, "checker", "floors.json"), os.path.join(d, "checker", "floors.json"))
             r = subprocess.run([os.path.join(root, "bin", "raftlint"), "-property", p, "-repo", dst], capture_output=True, text=True, env=env)
@@ -46,7 +46,7 @@ for m in muts:
             if noisy: ok = False
             if not props: continue
         for p in props:
-            env = dict(os.environ, VERIF_DIR=d)
+            env = dict(os.environ, VERIF_OUT=d)
             os.makedirs(os.path.join(d, "checker"), exist_ok=True)
             shutil.copy(os.path.join(root, "checker", "floors.json"), os.path.join(d, "checker", "floors.json"))
             if os.path.exists(os.path.join(root, "known_findings.json")):
